@@ -663,7 +663,25 @@ def r5_application(rep, src):
     lp = loops[0]
     params = f.params()
     why = 'the patches are not applied one by one in script order'
-    ok = isinstance(lp.iter, ast.Name) and lp.iter.id == params[1] and not lp.orelse
+    # what the loop iterates over: the parameter itself, or the parameter materialised (list(p) / tuple(p), directly or through a local)
+    pre = f.node.body[:f.node.body.index(lp)]
+    mat = {}
+    for st in pre:
+        if isinstance(st, ast.Assign) and len(st.targets) == 1 and isinstance(st.targets[0], ast.Name) and isinstance(st.value, ast.Call) \
+                and norm(st.value.func) in ('list', 'tuple') and [norm(a_) for a_ in st.value.args] == [params[1]]:
+            mat[st.targets[0].id] = True
+    it_ = lp.iter
+    direct = isinstance(it_, ast.Name) and it_.id == params[1] and params[1] not in mat
+    materialised = (isinstance(it_, ast.Name) and mat.get(it_.id)) or (isinstance(it_, ast.Call) and norm(it_.func) in ('list', 'tuple')
+                                                                         and [norm(a_) for a_ in it_.args] == [params[1]])
+    ok = (direct or materialised) and not lp.orelse
+    if ok:
+        if materialised:
+            rep.ok('C18.R5', f.site, 'the script is read completely before the first line is changed', 'the loop runs over list(%s)' % params[1])
+        else:
+            rep.fail('C18.R5', f.site, 'the script is read completely before the first line is changed', 'the loop that changes `%s` in place pulls the patches one by one from `%s`: '
+                     'with the lazy parser a malformed command or an unterminated text block that is not the first command raises ValueError after the earlier commands have '
+                     'already been applied -- the caller keeps a half-patched list' % (params[0], params[1]), where=f.where)
     if ok:
         # element k of the current patch triple, followed through unpacking / indexing of the loop variable
         env = {}
@@ -689,8 +707,13 @@ def r5_application(rep, src):
             return ('other', norm(e))
         bind(lp.target, ('patch',))
         stores = []
+        guards = []
         for st in lp.body:
             if isinstance(st, ast.Expr) and isinstance(st.value, ast.Constant):
+                continue
+            if isinstance(st, ast.If) and not st.orelse and len(st.body) == 1 and isinstance(st.body[0], ast.Raise) and not stores:
+                # a range check in front of the store
+                guards.append((st.test, norm(st.body[0].exc.func) if isinstance(st.body[0].exc, ast.Call) else norm(st.body[0].exc) if st.body[0].exc is not None else ''))
                 continue
             if isinstance(st, ast.Assign) and len(st.targets) == 1 and isinstance(st.targets[0], (ast.Name, ast.Tuple, ast.List)):
                 bind(st.targets[0], val(st.value))
@@ -703,6 +726,30 @@ def r5_application(rep, src):
         why = 'the slice assignment does not use (first, last, lines) in the positions the producer yields: %r' % (stores,)
     if ok:
         rep.ok('C18.R5', f.site, 'application', 'for each patch p in order: lines[p[0]:p[1]] = p[2]')
+        # the addressed range lies inside the list: a slice assignment beyond the end is silently clamped by Python, so a command whose
+        # number was corrupted to point past the last line would be "applied" (as an append, a truncation or not at all) instead of refused
+        def upper_checked(t):
+            # tests that are true exactly when the range end exceeds the length: `last > len(lines)` / `len(lines) < last` / not (... <= len(lines))
+            if isinstance(t, ast.UnaryOp) and isinstance(t.op, ast.Not):
+                t2 = t.operand
+                return isinstance(t2, ast.Compare) and isinstance(t2.ops[-1], ast.LtE) and val(t2.comparators[-2] if len(t2.comparators) > 1 else t2.left) == ('elem', 1) \
+                    and norm(t2.comparators[-1]) == 'len(%s)' % params[0]
+            if isinstance(t, ast.BoolOp) and isinstance(t.op, ast.Or):
+                return any(upper_checked(v) for v in t.values)
+            if isinstance(t, ast.Compare) and len(t.ops) == 1:
+                l_, r_, op_ = t.left, t.comparators[0], t.ops[0]
+                if isinstance(op_, ast.Gt) and val(l_) == ('elem', 1) and norm(r_) == 'len(%s)' % params[0]:
+                    return True
+                if isinstance(op_, ast.Lt) and val(r_) == ('elem', 1) and norm(l_) == 'len(%s)' % params[0]:
+                    return True
+            return False
+        good = [g_ for g_ in guards if upper_checked(g_[0]) and 'ValueError' in g_[1]]
+        if good:
+            rep.ok('C18.R5', f.site, 'the addressed range lies inside the list', '`%s` → ValueError before the slice assignment' % norm(good[0][0]))
+        else:
+            rep.fail('C18.R5', f.site, 'the addressed range lies inside the list', 'the slice assignment is not preceded by a check of the range end against len(%s): a command with an '
+                     'address beyond the last line ("20d", "2,9d", "91a" on a three-line file) is clamped by the slice and produces a result instead of ValueError' % params[0],
+                     where=f.where)
     else:
         rep.fail('C18.R5', f.site, 'application', why, where=f.where)
     # the regex is chosen by the type of the line (helpers inlined): the value matched against a bytes line is the regex whose
@@ -802,7 +849,7 @@ def check(src, rep, tier):
     rep.need('C18.R2', 6)
     rep.need('C18.R4', 5)
     rep.need('C18.R3', 2)
-    rep.need('C18.R5', 3)
+    rep.need('C18.R5', 5)
     roles = rep.guard('C18.R1', r1_command_language, src)
     if roles is not None:
         rep.guard('C18.R2', r2_r4_table, src, roles)
